@@ -841,6 +841,16 @@ pub async fn snap_all(t: &Tbl) -> Result<BTreeMap<u64, VersionSnap>> {
     Ok(out)
 }
 
+/// An external-store entry whose object does not exist (the store "points into the void").
+pub fn ext_dangling(t: &Tbl) -> Option<String> {
+    for (b, v, path) in t.ext.entries() {
+        if !t.env.store.exists(&path) {
+            return Some(format!("external store maps {b}@{v} to {} which does not exist", norm_name(&path)));
+        }
+    }
+    None
+}
+
 /// Which part of the table a path belongs to (for classification keys).
 pub fn path_class(p: &str) -> &'static str {
     if p.starts_with("ext:") {
